@@ -6,7 +6,7 @@
    VaryingSize lists of non-trivial types is the recorded known finding. *)
 From Coq Require Import ZArith List Bool.
 From Coq Require Import Permutation.
-From Cntgs Require Import Base Layout Mem Vector Spec Rep LifeThm StableThm NtRefine LifeHist.
+From Cntgs Require Import Base Layout Mem Vector Spec Rep LifeThm StableThm NtRefine LifeHist Proxy Elem ElemThm ElemLife.
 Import ListNotations.
 Local Open Scope Z_scope.
 
@@ -84,3 +84,30 @@ Theorem C06_whole_life_objects_balanced : forall L cap budget fixed aid junk bid
   Permutation (keep born evs) (keep died evs).
 Proof. exact whole_life_objects_balanced. Qed.
 Print Assumptions C06_whole_life_objects_balanced.
+
+(* ---------- the objects of a ContiguousElement ----------
+   An element constructed from a reference (value_type{ref}: copy form, value_type{std::move(ref)}:
+   move form) constructs - through the value type's copy / move constructor - exactly the objects
+   of the fields whose constructor of that form is not trivial, at the placement of the tuple
+   at offset 0 of its own block, and destroys nothing; its destructor destroys exactly the
+   objects of the non-trivially destructible fields at those addresses.  When the value types
+   are non-trivially constructible exactly when non-trivially destructible: every object of
+   the element is constructed once and destroyed once. *)
+Theorem C06_element_construction_constructs_each_object_once : forall L t fc, tuple_ok L fc 0 t -> forall mv ms a sb aid junk nb,
+  let evs := snd (elem_from_ref mv L ms (ref_fl L t a) sb aid junk nb) in
+  keep born evs = tag nb (eobjs (ntc mv) L 0 t) /\ keep died evs = [].
+Proof. exact elem_from_ref_objects. Qed.
+Print Assumptions C06_element_construction_constructs_each_object_once.
+
+Theorem C06_element_destruction_destroys_each_object_once : forall L t fc, tuple_ok L fc 0 t -> forall e b, e_bid e = Some b -> e_fl e = ref_fl L t 0 ->
+  keep died (elem_destroy L e) = tag b (eobjs ntd L 0 t) /\ keep born (elem_destroy L e) = [].
+Proof. exact elem_destroy_objects. Qed.
+Print Assumptions C06_element_destruction_destroys_each_object_once.
+
+Theorem C06_element_life_balanced : forall L t fc, tuple_ok L fc 0 t -> forall mv ms a sb aid junk nb,
+  (forall p, In p L -> ntc mv p = ntd p) ->
+  let r := elem_from_ref mv L ms (ref_fl L t a) sb aid junk nb in
+  let e := snd (fst r) in
+  keep born (snd r) = keep died (elem_destroy L e) /\ keep died (snd r) = [] /\ keep born (elem_destroy L e) = [].
+Proof. exact elem_life_balanced. Qed.
+Print Assumptions C06_element_life_balanced.
